@@ -133,13 +133,16 @@ PROPS = {
         trusted_base=TB_KANI + TB_STUB,
         assumptions=[],
         undecided_clauses=[
-            'container arms of the converter (convert_*2_to_*1 build temporary BytesMut buffers that must grow: out of '
-            'CBMC\'s budget), hence "contains no 1.20 container encodings", idempotence and value equality on containers',
-            'strings; unbounded inputs',
+            'container arms beyond the bounded shapes (<= 2 elements, concrete varint ids/keys, nesting depth <= 3): '
+            'unbounded element counts, arbitrary nesting, symbolic varint lengths',
+            'strings; object/service id arms; arbitrary malformed bytes (the walker with symbolic kind bytes)',
         ],
         explanation='epoch mapping and InvalidVersion exactly outside 1.14..1.20; same/newer epoch returns the input '
                     'unchanged; key re-encoding = decode then encode for every integer/uuid key type on all inputs; '
-                    'every scalar arm of the converter = typed decode then canonical encode on all inputs; depth limit',
+                    'every scalar arm of the converter = typed decode then canonical encode on all inputs; depth limit; '
+                    'container arms on bounded shapes: terminated vec/bytes/map/set/struct (nested, multi-segment bytes, under '
+                    'Some/Enum) become exactly the counted encodings, legacy containers pass unchanged, the output converts '
+                    'to itself, malformed terminated containers are rejected, nesting boundary 30/31 as in the codec',
     ),
     'C01': dict(
         level='proof',
